@@ -211,17 +211,18 @@ def gen(tier, rng):
                         ops += ["ra" if (p + q) % 2 else "sa", "rc %d %d" % (p, q)]
                 out.append(hist(kind, w, bits, ops))
     # --- B. width 7 (and 1): every pair of values under the binary operations
+    #     (one line per right operand b: the extracted model recomputes its constants per line)
     for bits in (1, 7):
         for kind, w in KINDS:
             full = kind == "bs" or not quick
-            for a in range(2**bits):
-                bs = range(2**bits) if full else [rng.randrange(2**bits) for _ in range(6)]
-                for b in bs:
-                    ops = ["int %d" % b, "sw"]
+            for b in range(2**bits):
+                avals = range(2**bits) if full else [rng.randrange(2**bits) for _ in range(6)]
+                ops = ["int %d" % b, "sw"]
+                for a in avals:
                     free = (not quick) or not full or (a + b) % 8 == 0
                     for o in ("and", "or", "xor") + (("andf", "orf", "xorf") if free else ()):
                         ops += ["int %d" % a, o]
-                    out.append(hist(kind, w, bits, ops))
+                out.append(hist(kind, w, bits, ops))
     # --- C. all widths: random histories (+ raw storage twins)
     for bits in WIDTHS:
         # the extracted model costs ~5 us per bit and step (unary positions): fewer, not shorter, histories
